@@ -183,4 +183,41 @@ def Tree.WF (t : Tree) : Prop :=
   (t.gdir = false → t.main.isNone = true ∧ t.recov.isNone = true ∧ t.adir = false ∧ t.bdir = false) ∧
   (t.adir = false → t.a.isNone = true) ∧ (t.bdir = false → t.b.isNone = true)
 
+/-- which stores a tree op writes to -/
+def TOp.touches : TOp → Store → Bool
+  | .on s' _, s => s' == s
+  | .ckpt c _, s => s == .main || (s == .recovery && c == .bothFail)
+  | .ckptCrash _ _ _, s => s == .main
+  | .fail _ _, s => s == .recovery
+  | .failCrash _ _ _, s => s == .recovery
+
+/-! ### The storage interface seen from `StorageInterface.delete`: any back end, through its hooks -/
+
+/-- a back end as far as `StorageInterface.delete` is concerned: the two hooks that guard `_delete`, `_delete` itself,
+and the ground truth "none of this back end's files exists for the graph" -/
+structure Backend (σ : Type) where
+  hasContent   : σ → Bool      -- `_has_saved_content`
+  hasLeftovers : σ → Bool      -- `_has_leftovers` (`StorageInterface` default: always `False`)
+  del          : σ → σ         -- `_delete`
+  clean        : σ → Bool      -- nothing of this back end is on disk
+
+/-- `StorageInterface.delete`, up to the directory clean-up -/
+def Backend.delete {σ} (b : Backend σ) (st : σ) : σ :=
+  if b.hasContent st || b.hasLeftovers st then b.del st else st
+
+/-- the hooks tell the truth in state `st`: when something of the back end is on disk, one of them says so -/
+def Backend.truthfulAt {σ} (b : Backend σ) (st : σ) : Prop :=
+  b.clean st = false → (b.hasContent st || b.hasLeftovers st) = true
+
+/-- `_delete` removes everything the back end ever writes -/
+def Backend.delComplete {σ} (b : Backend σ) : Prop := ∀ st, b.clean (b.del st) = true
+
+/-- `PickleStorage` as such a back end (`leftoverHook = false`: a subclass that keeps the interface's default
+`_has_leftovers`) -/
+def pickleBackend (leftoverHook : Bool) : Backend FS where
+  hasContent := hasSaved
+  hasLeftovers := fun fs => leftoverHook && hasLeftover fs
+  del := fun fs => runSteps fs (deleteSteps .atomicReplace)
+  clean := FS.noFiles
+
 end PwVerif.Storage
